@@ -30,7 +30,7 @@ def prop(pid, rules, explanation, not_decided, assumptions=(), trusted=('A1', 'A
 prop('C09',
      [('R00.dyn', RG.rule_no_dynamic), ('R09.d', RC.rule_definition), ('R03.a', RC.rule_core),
       ('R03.b', RC.rule_mask_sites), ('R09.w', RC.rule_weak_coupling), ('R09.e', RC.rule_elementwise),
-      ('R09.p', RC.rule_purity), ('R09.a', RC.rule_aliases)],
+      ('R09.p', RC.rule_purity), ('R09.h', RC.rule_history), ('R09.a', RC.rule_aliases)],
      'Static analysis of pyPRISM/closure: for every AtomicClosure subclass and both values of apply_hard_core the '
      'return term of calculate(r,gamma) is extracted by abstract interpretation over canonical terms (exact '
      'rational-function normal form with exp/sqrt atoms, piecewise on the three orderings of r and sigma) and '
@@ -56,7 +56,7 @@ prop('C10',
 prop('C03',
      [('R00.dyn', RG.rule_no_dynamic), ('R03.a', RC.rule_core), ('R03.b', RC.rule_mask_sites),
       ('R03.c', RC.rule_noflag_limit),
-      ('R03.d', RP.rule_core), ('R09.p', RC.rule_purity)],
+      ('R03.d', RP.rule_core), ('R09.p', RC.rule_purity), ('R09.h', RC.rule_history)],
      'Static analysis: (a) with the hard-core flag every closure returns exactly -1-gamma on r<sigma and r==sigma '
      '(three orderings enumerated on the extracted piecewise term), hence c+gamma=-1 there for every gamma; '
      '(b) the mask compares the grid argument with the closure own sigma; (c) PY and HNC without the flag reduce to '
@@ -81,7 +81,7 @@ prop('C07',
      'rounding error magnitude; the behaviour of scipy.fftpack.dst itself (trusted, A2).')
 
 prop('C08',
-     [('R00.dyn', RG.rule_no_dynamic), ('R08.f', RD.rule_prefactors), ('R07.g', RD.rule_grid)],
+     [('R00.dyn', RG.rule_no_dynamic), ('R08.f', RD.rule_prefactors), ('R07.g', RD.rule_grid), ('R07.i', RD.rule_mutators)],
      'Static analysis: the extracted transforms equal dst2(2 pi r dr f)/k and dst3(k dk/(4 pi^2) F)/r term by term '
      '(absolute prefactors of the 3-D radial pair: with the factor 2 built into DST-II/III, forward 4 pi and backward '
      '1/(2 pi^2)), DST types 2/3 without normalisation keywords, dk = pi/(dr*length), r_i=(i+1)dr, k_j=(j+1)dk. This is '
@@ -181,7 +181,7 @@ prop('C06',
 
 prop('C16',
      [('R00.dyn', RG.rule_no_dynamic), ('R16.x', RP2.rule_system_check), ('R16.d', RP2.rule_check_dominates),
-      ('R16.c', RP2.rule_copy_and_frame), ('R16.w', RP2.rule_wiring)],
+      ('R16.c', RP2.rule_copy_and_frame), ('R16.w', RP2.rule_wiring), ('R14.c', RT.rule_pairtable_setitem)],
      'Static analysis of System/PRISM construction: System.__init__ is interpreted to enumerate the tables it creates and '
      'System.check must visit each of them (and refuse a missing domain with ValueError) without writing; in '
      'createPRISM/solve an unconditional self.check() must dominate PRISM(self); PRISM.__init__ is abstractly interpreted '
@@ -197,7 +197,8 @@ prop('C16',
 prop('C01',
      [('R00.dyn', RG.rule_no_dynamic), ('R01.a', RP2.rule_cost), ('R01.f', RP2.rule_post_solve),
       ('R16.w', RP2.rule_wiring), ('R16.c', RP2.rule_copy_and_frame),
-      ('R09.d', RC.rule_definition), ('R03.a', RC.rule_core), ('R09.p', RC.rule_purity),
+      ('R09.d', RC.rule_definition), ('R03.a', RC.rule_core), ('R09.p', RC.rule_purity), ('R09.h', RC.rule_history),
+      ('R14.c', RT.rule_pairtable_setitem),
       ('R15.f', RDn.rule_density), ('R07.t', RD.rule_roundtrip), ('R07.m', RD.rule_matrixarray_transforms),
       ('R13.5', _r13_arith), ('R13.6', RM.rule_dot_invert), ('R13.9', RM.rule_items)],
      'Static analysis: PRISM.__init__ and PRISM.cost are abstractly interpreted end to end on a symbolic System (per-pair '
